@@ -385,3 +385,11 @@ func genWideForest(names *rapid.Generator[string]) *rapid.Generator[model.Forest
 
 // linkTarget: the target option is a relative name that is a symbolic link to the target directory ("t", "~t").
 func linkTarget(t string) bool { return t == "short" || t == "tilde" }
+
+// maybeMixed turns a heading spelling into the mixed notation one time in three: the first k roots stay list items, the
+// later ones are # headings (simple mode only; in massive mode such documents are the known finding C10/massive-mixed-roots).
+func maybeMixed(t *rapid.T, sp *model.Spelling, nroots int) {
+	if sp.Heading && nroots >= 2 && rapid.IntRange(0, 2).Draw(t, "mixed") == 0 {
+		sp.HeadingFrom = rapid.IntRange(1, nroots-1).Draw(t, "headingFrom")
+	}
+}
